@@ -55,3 +55,38 @@ pub fn record<T>(f: impl FnOnce() -> T) -> (T, Vec<Event>) {
 pub fn hook_violation(ev: &[Event]) -> Option<String> {
     ev.iter().find_map(|e| if let Event::HookViolation(s) = e { Some(s.clone()) } else { None })
 }
+
+/// Like `record`, but a panic inside `f` is caught (message returned) and the events recorded up
+/// to the panic are still returned.
+#[cfg(fir_verif)]
+pub fn record_catch<T>(f: impl FnOnce() -> T) -> (Result<T, String>, Vec<Event>) {
+    let _ = fr::verif_hooks::take_events();
+    fr::verif_hooks::set_recording(true);
+    let r = std::panic::catch_unwind(std::panic::AssertUnwindSafe(f));
+    fr::verif_hooks::set_recording(false);
+    let ev = fr::verif_hooks::take_events();
+    let r = r.map_err(|e| {
+        let msg = if let Some(s) = e.downcast_ref::<&str>() {
+            s.to_string()
+        } else if let Some(s) = e.downcast_ref::<String>() {
+            s.clone()
+        } else {
+            "panic".to_string()
+        };
+        format!("{} @ {}", msg, crate::run::take_panic_location())
+    });
+    (r, ev)
+}
+
+/// Largest sum of absolute coefficients over the passes in an event list (None: no pass ran).
+#[cfg(fir_verif)]
+pub fn max_abs_sum(ev: &[Event]) -> Option<f64> {
+    let mut m: Option<f64> = None;
+    for e in ev {
+        if let Event::Pass { max_abs_sum, .. } = e {
+            let v = if max_abs_sum.is_nan() { f64::INFINITY } else { *max_abs_sum };
+            m = Some(m.map_or(v, |x: f64| x.max(v)));
+        }
+    }
+    m
+}
